@@ -1,1 +1,240 @@
 //! Verification hooks (exec); see `verif/mod.rs`.
+//!
+//! * H-SPEC: [`speculative_execute`] calls the crate-private
+//!   `policies::speculative_execution::execute` with the production
+//!   `SimpleSpeculativeExecutionPolicy`, so that an external harness can play the role of the
+//!   runner generator under a paused clock.
+//! * H-EXEC: [`run_request`] runs the production
+//!   `RequestExecutionParams::run_request_no_side_effects` (and through it
+//!   `run_request_speculative_fiber` and, for idempotent requests with a speculative policy,
+//!   `speculative_execution::execute` over the production `SharedPlan`) with a plan of placeholder
+//!   targets and a caller-supplied per-attempt closure. No network, nothing is spawned.
+//!
+//! Nothing here changes behaviour: both functions only assemble arguments for existing functions.
+
+use std::future::Future;
+use std::net::SocketAddr;
+use std::sync::{Arc, Mutex};
+use std::time::Duration;
+
+use crate::client::verif_execution::{
+    AttemptTarget, RequestExecutionParams, RequestPaging, RunRequestResult,
+};
+use crate::errors::{ConnectionPoolError, RequestAttemptError, RequestError};
+use crate::frame::response::NonErrorResponseWithDeserializedMetadataV2;
+use crate::frame::types::Consistency;
+use crate::network::Connection;
+use crate::observability::driver_tracing::RequestSpan;
+use crate::observability::history::HistoryListener;
+use crate::observability::metrics::Metrics;
+use crate::policies::load_balancing::{DefaultPolicy, LoadBalancingPolicy, RoutingInfo};
+use crate::policies::retry::RetryPolicy;
+use crate::policies::speculative_execution::{
+    self, SimpleSpeculativeExecutionPolicy, SpeculativeExecutionPolicy,
+};
+use crate::response::NonErrorQueryResponse;
+
+// ------------------------------------------------------------------------------------------------
+// H-SPEC
+
+/// Runs the production speculative-execution loop with a `SimpleSpeculativeExecutionPolicy`.
+/// `runner_generator(is_speculative)` is called by the loop for every execution it starts.
+pub async fn speculative_execute<QueryFut, T>(
+    max_retry_count: usize,
+    retry_interval: Duration,
+    runner_generator: impl FnMut(bool) -> QueryFut,
+) -> Result<T, RequestError>
+where
+    QueryFut: Future<Output = Option<Result<T, RequestError>>>,
+{
+    let policy = SimpleSpeculativeExecutionPolicy {
+        max_retry_count,
+        retry_interval,
+    };
+    let context = speculative_execution::Context {
+        #[cfg(feature = "metrics")]
+        metrics: Arc::new(Metrics::new()),
+    };
+    speculative_execution::execute(&policy, &context, runner_generator).await
+}
+
+// ------------------------------------------------------------------------------------------------
+// H-EXEC
+
+/// Address of the placeholder connection of plan target `idx` (the attempt closure and a
+/// `HistoryListener` identify targets by it).
+pub fn target_addr(idx: usize) -> SocketAddr {
+    SocketAddr::from(([127, 0, 0, 1], 9000 + idx as u16))
+}
+
+/// Inverse of [`target_addr`].
+pub fn target_of_addr(addr: SocketAddr) -> usize {
+    (addr.port() - 9000) as usize
+}
+
+/// What the loop did with the plan and the targets, in order (observation only).
+#[derive(Clone, Debug, PartialEq, Eq)]
+pub enum ExecEvent {
+    /// the loop pulled the next item from the plan iterator
+    PlanNext(Option<usize>),
+    /// the loop asked target `target` for a connection
+    GetConnection { target: usize, ok: bool },
+    /// load-balancing feedback calls
+    SuccessFeedback { target: usize },
+    FailureFeedback { target: usize },
+}
+
+pub type ExecLog = Arc<Mutex<Vec<ExecEvent>>>;
+
+pub struct ExecConfig {
+    pub is_idempotent: bool,
+    pub consistency: Consistency,
+    pub retry_policy: Arc<dyn RetryPolicy>,
+    pub speculative: Option<Arc<dyn SpeculativeExecutionPolicy>>,
+    pub request_timeout: Option<Duration>,
+    pub history_listener: Option<Arc<dyn HistoryListener>>,
+    /// The plan: one entry per target in plan order; `false` = the target hands out no
+    /// connection (`ConnectionPoolError::Initializing`).
+    pub targets: Vec<bool>,
+}
+
+#[derive(Debug)]
+pub enum ExecResult {
+    /// `token` is the value the attempt closure returned for the successful attempt.
+    Completed { coordinator: usize, token: String },
+    IgnoredWriteError { coordinator: usize },
+    Err(RequestError),
+}
+
+struct VerifTarget {
+    idx: usize,
+    connection: Option<Arc<Connection>>,
+    log: ExecLog,
+}
+
+impl AttemptTarget for VerifTarget {
+    type Coordinator = usize;
+
+    async fn get_connection(&self) -> Result<Arc<Connection>, ConnectionPoolError> {
+        self.log.lock().unwrap().push(ExecEvent::GetConnection {
+            target: self.idx,
+            ok: self.connection.is_some(),
+        });
+        match &self.connection {
+            Some(c) => Ok(Arc::clone(c)),
+            None => Err(ConnectionPoolError::Initializing),
+        }
+    }
+
+    fn coordinator(&self, _connection: &Arc<Connection>) -> usize {
+        self.idx
+    }
+
+    fn on_attempt_success(
+        &self,
+        _load_balancing_policy: &dyn LoadBalancingPolicy,
+        _routing_info: &RoutingInfo<'_>,
+        _elapsed: Duration,
+    ) {
+        self.log
+            .lock()
+            .unwrap()
+            .push(ExecEvent::SuccessFeedback { target: self.idx });
+    }
+
+    fn on_attempt_failure(
+        &self,
+        _load_balancing_policy: &dyn LoadBalancingPolicy,
+        _routing_info: &RoutingInfo<'_>,
+        _elapsed: Duration,
+        _error: &RequestAttemptError,
+    ) {
+        self.log
+            .lock()
+            .unwrap()
+            .push(ExecEvent::FailureFeedback { target: self.idx });
+    }
+}
+
+struct VerifPlan {
+    targets: std::vec::IntoIter<VerifTarget>,
+    log: ExecLog,
+}
+
+impl Iterator for VerifPlan {
+    type Item = VerifTarget;
+    fn next(&mut self) -> Option<VerifTarget> {
+        let t = self.targets.next();
+        self.log
+            .lock()
+            .unwrap()
+            .push(ExecEvent::PlanNext(t.as_ref().map(|t| t.idx)));
+        t
+    }
+}
+
+/// Runs the production request-execution loop over placeholder targets.
+///
+/// `attempt(target index, consistency)` stands for "send the request once on this connection with
+/// this consistency"; the `Ok` string is handed back in [`ExecResult::Completed`].
+pub async fn run_request<F, Fut>(cfg: &ExecConfig, log: ExecLog, attempt: F) -> ExecResult
+where
+    F: Fn(usize, Consistency) -> Fut,
+    Fut: Future<Output = Result<String, RequestAttemptError>>,
+{
+    let metrics = Arc::new(Metrics::new());
+    let lbp = DefaultPolicy::default();
+    let params = RequestExecutionParams {
+        is_idempotent: cfg.is_idempotent,
+        consistency: cfg.consistency,
+        serial_consistency: None,
+        retry_policy: cfg.retry_policy.as_ref(),
+        load_balancing_policy: &lbp,
+        metrics_and_speculative_policy: Some((&metrics, cfg.speculative.as_deref())),
+        request_timeout: cfg.request_timeout,
+        history_listener: cfg.history_listener.as_deref(),
+        request_kind: RequestPaging::Unpaged,
+    };
+    let routing_info = RoutingInfo::default();
+    let span = RequestSpan::new_query("verif");
+    let targets: Vec<VerifTarget> = cfg
+        .targets
+        .iter()
+        .enumerate()
+        .map(|(idx, has_conn)| VerifTarget {
+            idx,
+            connection: has_conn
+                .then(|| Arc::new(Connection::verif_exec_placeholder(target_addr(idx)))),
+            log: Arc::clone(&log),
+        })
+        .collect();
+    let plan = VerifPlan {
+        targets: targets.into_iter(),
+        log: Arc::clone(&log),
+    };
+    let run_request_once = |connection: Arc<Connection>, consistency: Consistency| {
+        let fut = attempt(target_of_addr(connection.get_connect_address()), consistency);
+        async move {
+            fut.await.map(|token| NonErrorQueryResponse {
+                response: NonErrorResponseWithDeserializedMetadataV2::Ready,
+                tracing_id: None,
+                warnings: vec![token],
+            })
+        }
+    };
+    match params
+        .run_request_no_side_effects(&routing_info, plan, run_request_once, &span)
+        .await
+    {
+        Ok(outcome) => match outcome.result {
+            RunRequestResult::Completed(mut response) => ExecResult::Completed {
+                coordinator: outcome.coordinator,
+                token: response.warnings.pop().unwrap_or_default(),
+            },
+            RunRequestResult::IgnoredWriteError => ExecResult::IgnoredWriteError {
+                coordinator: outcome.coordinator,
+            },
+        },
+        Err(e) => ExecResult::Err(e),
+    }
+}
